@@ -283,9 +283,11 @@ def run(ck):
             ck.report_known(f['id'], '%s: %s (listed input: balance off by %.3g)' % (f['id'], f['what'], r['dev']))
     worst = 0.0
     worst_id = 0.0
-    for i in range(n):
-        uniform = (i % 5 != 4)
-        case = gen_case(rng, uniform=uniform, small=ck.tier == 'quick', families=['varray'] if i % 9 == 2 else ['monopole'] if i % 9 in (5, 7) else ['taper_vee'] if i % 9 == 3 else None)
+    ntv = 20 if ck.tier == 'quick' else 150        # further inverted Vs of tapered legs (bounded known-finding class, asserted at 4 %)
+    for i in range(n + ntv):
+        uniform = (i % 5 != 4) or i >= n
+        case = gen_case(rng, uniform=uniform, small=ck.tier == 'quick',
+                        families=['taper_vee'] if i >= n else ['varray'] if i % 9 == 2 else ['monopole'] if i % 9 in (5, 7) else ['taper_vee'] if i % 9 == 3 else None)
         if not in_domain(case['ant']):
             ck.count('outside_modelling_rules')
             continue
